@@ -313,6 +313,9 @@ impl<'a, B, OC, SC, L> StorageResolver<'a, B, OC, SC, L> {
     }
 }
 
+/// How many objects may be in the middle of loading each other (per thread).
+const MAX_NESTED_LOADS: usize = 48;
+
 struct Defer<F: FnMut()>(F);
 impl<F: FnMut()> Drop for Defer<F> {
     fn drop(&mut self) {
@@ -353,6 +356,11 @@ where
             let mut chain = self.chain.lock().unwrap();
             if chain.contains(&(thread, key)) {
                 bail!("Recursive reference");
+            }
+            // a chain of distinct objects that load each other eagerly (page-tree /Parent links ...)
+            // is as dangerous for the stack as a cycle
+            if chain.iter().filter(|&&(t, _)| t == thread).count() >= MAX_NESTED_LOADS {
+                bail!("references nested more than {} deep", MAX_NESTED_LOADS);
             }
             chain.push((thread, key));
         }
